@@ -63,6 +63,18 @@ ASSUMPTIONS = [
     % (DEF_MAX_PROBES, ', '.join(DEF_PROBE_ROUTES)),
     'constructor keywords spelled exactly like the python parameters of the constructor routes (self, kind) are sent like any '
     'other spelling (this found F-C10d, repaired)',
+    'equality filters naming ONE attribute twice under two spellings (first family, every state without a deleted attribute): '
+    'every ordered pair of the four spellings of Id / Xy, the value pairs (stored, stored), (stored, other), (other, stored), '
+    '(other, other); routes where_eq keywords / dict through MetaModel.select_many, MetaClass.query, select_any, '
+    'MetaClass.select_one and the filter of a navigation chain (when related), alternating; judged: the selection is the '
+    'instance iff both values equal the one stored value, else empty',
+    'palette family, names with letters whose case mappings do not round-trip (quick: Ma\u00df, S\u0131ra; thorough also '
+    '\u017fo, \ufb01x, Stra\u00dfe), declared as written / lower / UPPER (thorough: also swapped and lower(UPPER)): a spelling '
+    'of such a name is any string whose str.upper() equals the upper() of the declared name (the comparison the library makes '
+    'at every site), generated by upper / lower / swapcase / capitalize (twice) and, for names up to four letters, per-letter '
+    'toggling of the name and of its upper-cased form (MASS, mass, ma\u00df, MA\u00df ... all address the attribute declared Ma\u00df)',
+    'palette family: when a write leaves the instance with more entries than it was created with, one more observation is made '
+    '(delete under the declared spelling, then every spelling must read unset); the number of entries itself is never judged',
 ]
 
 SQL = ('CREATE TABLE Ab (Id UNIQUE_ID, Xy STRING, R_a UNIQUE_ID);\n'
@@ -446,6 +458,7 @@ class NameModel(explorer.Model):
         if DELETED in w.ref.values():
             return
         a = w.a
+        n = 0
         for u in ('ID', 'XY'):
             cur = w.ref[u]
             others = [v for v in VALS[u] if v != cur][:2]
@@ -454,9 +467,12 @@ class NameModel(explorer.Model):
                 for v1, v2 in pairs:
                     flt = [(s1, v1), (s2, v2)]
                     exp = [a] if v1 == cur and v2 == cur else []
-                    for form in TWICE_FORMS:
+                    n += 1
+                    # the routes alternate (every route meets every pair of values and every pair of spellings
+                    # over the states; all of them in one state would double the cost of a state)
+                    for form in (TWICE_FORMS[(n + n // len(TWICE_FORMS)) % len(TWICE_FORMS)],):
                         if form == 'nav' and not w.related:
-                            continue
+                            form = 'dict'
                         ctx.count('reads')
                         ctx.count('twice_filters')
                         d = dict(flt)
@@ -1014,8 +1030,47 @@ def declared_forms(name, tier):
     return out
 
 
+# Names with a letter whose case mappings do not round-trip (str.upper() is what the library compares): 'Maß'.upper() ==
+# 'MASS' but 'MASS'.lower() == 'mass' != 'maß'; dotless 'ı'.upper() == 'I' but 'I'.lower() == 'i'; long s, the fi ligature.
+# The spellings of such a name are ALL strings whose upper() equals the upper() of the declared name (so 'MASS', 'mass',
+# 'maß', 'MAß' address the attribute declared 'Maß'), generated with str.upper / lower / swapcase / capitalize and, for
+# short names, per-character toggling of both the name and its upper-cased form.
+FOLD_NAMES = {'quick': ['Ma\xdf', 'S\u0131ra'],
+              'thorough': ['Ma\xdf', 'S\u0131ra', '\u017fo', '\ufb01x', 'Stra\xdfe']}
+
+
+def fold_base(layout):
+    for name in FOLD_NAMES['thorough']:
+        if name.upper() == layout.upper():
+            return name
+    return None
+
+
+def fold_declared(name, tier):
+    out = []
+    for s in (name, name.lower(), name.upper()) + ((name.swapcase(), name.upper().lower()) if tier != 'quick' else ()):
+        if s not in out:
+            out.append(s)
+    return out
+
+
+def fold_patterns(base, decl):
+    pool = [decl] + ([base] if base != decl else [])
+    for _ in range(2):
+        for x in list(pool):
+            for f in (str.upper, str.lower, str.swapcase, str.capitalize):
+                if f(x) not in pool:
+                    pool.append(f(x))
+    if sum(ch.isalpha() for ch in base) <= PALETTE_ALL_PATTERNS:
+        for x in spellings(base) + spellings(base.upper()):
+            if x not in pool:
+                pool.append(x)
+    return [s for s in pool if s.upper() == decl.upper()]
+
+
 def palette_layouts(tier):
-    return ['%s' % d for name in PALETTE[tier] for d in declared_forms(name, tier)]
+    return ['%s' % d for name in PALETTE[tier] for d in declared_forms(name, tier)] + \
+           [d for name in FOLD_NAMES[tier] for d in fold_declared(name, tier)]
 
 
 class PaletteModel(explorer.Model):
@@ -1027,6 +1082,8 @@ class PaletteModel(explorer.Model):
         self.layout = layout
         self.decl = layout
         self.sp = patterns(layout)
+        if fold_base(layout):
+            self.sp = fold_patterns(fold_base(layout), layout)
         if self.decl not in self.sp:
             self.sp.append(self.decl)
         self.rop_keys = []
@@ -1060,6 +1117,10 @@ class PaletteModel(explorer.Model):
             w.ys.append(y)
         w.ref = ''
         w.written = set()
+        try:
+            w.slots0 = len(w.z.__dict__)
+        except Exception:
+            w.slots0 = 0
         for op in hist:
             self.step(w, op)
         return w
@@ -1118,7 +1179,33 @@ class PaletteModel(explorer.Model):
         if got != exp and not (op[0] == 'del' and exp == 'error'):
             bad('%s:outcome' % op[0], 'outcome %s, expected %s' % (got, exp), exp, got)
             return False
-        return self.check_reads(ctx, w, w.z, w.ref, bad, op[0])
+        if not self.check_reads(ctx, w, w.z, w.ref, bad, op[0]):
+            return False
+        if op[0] == 'set' and self.grown(w):
+            # The write left one more entry in the instance than it had when it was created. That alone is no verdict (the
+            # entry is not part of the statement), it is the occasion for one more observation, made in a world of its own:
+            # after a deletion under the declared spelling every spelling must read unset -- a spelling that still reads
+            # a value was given a second stored value by the write (which happened to equal the first one). Such a state
+            # is not expanded (every further spelling written would double the state space).
+            w2 = self.build(hist + [op])
+            try:
+                delattr(w2.z, self.decl)
+            except (AttributeError, KeyError):
+                pass
+            seen = [getattr(w2.z, s, DELETED) for s in self.sp]
+            ctx.count('reads', len(seen))
+            if any(g not in (None, DELETED) for g in seen):
+                bad('set:second-value', 'after this write and a deletion under the declared spelling %r the spellings %s '
+                    'read %s: the write did not address the one stored value' % (self.decl, self.sp, seen),
+                    'all unset', seen)
+                return False
+        return True
+
+    def grown(self, w):
+        try:
+            return len(w.z.__dict__) > w.slots0
+        except Exception:
+            return False
 
     def apply_new(self, ctx, w, op, bad):
         route, ks, kw = op[1], op[2], op[3]
@@ -1602,6 +1689,10 @@ def run(ctx):
                 (len(r4['per_layout']), want, min(list(r4['per_layout'].values()) or [0])))
     ctx.require(ctx.n('palette_traces') >= 3000, 'palette family: too few transitions (%d)' % ctx.n('palette_traces'))
     ctx.require(ctx.n('reads') >= 10000, 'too few reads compared')
+    ctx.require(ctx.n('twice_filters') >= 5000, 'too few filters naming one attribute under two spellings (%d)' % ctx.n('twice_filters'))
+    for name in FOLD_NAMES[ctx.tier]:
+        ctx.require(r4['per_layout'].get(name, 0) >= 4 and any(not sp.isascii() for sp in fold_patterns(name, name.upper())),
+                    'palette family: %r not explored' % name)
     ctx.require(ctx.nd('outcomes') >= 6, 'too few distinct outcomes (%d)' % ctx.nd('outcomes'))
 
 
@@ -1642,10 +1733,14 @@ def coverage(ctx):
                                             rejected_write_value=REF_WRITE, filter_values=REF_QUERY,
                                             states=ctx.n('ref_states'), transitions=ctx.n('ref_traces')),
                     positional_and_keyword_forms=dict(routes=MIX_ROUTES, forms=MIX_FORMS, calls=ctx.n('mix_forms')),
+                    filters_naming_one_attribute_twice=dict(routes=TWICE_FORMS, spelling_pairs='all ordered pairs of the 2^n '
+                                                            'spellings of Id and of Xy', selections=ctx.n('twice_filters')),
                     definition_family=dict(class_name=DEF_KIND, probe_routes=DEF_PROBE_ROUTES, define_routes=DEF_DEFINE_ROUTES,
                                            create_routes=DEF_CREATE_ROUTES, rejected_uses_before_definition=DEF_MAX_PROBES,
                                            states=ctx.n('def_states'), transitions=ctx.n('def_traces')),
-                    palette_family=dict(names=PALETTE[ctx.tier], declared_spellings=palette_layouts(ctx.tier),
+                    palette_family=dict(names=PALETTE[ctx.tier] + FOLD_NAMES[ctx.tier],
+                                        names_whose_case_mapping_does_not_round_trip=FOLD_NAMES[ctx.tier],
+                                        declared_spellings=palette_layouts(ctx.tier),
                                         accessed='all 2^n case patterns up to %d letters, six patterns beyond' % PALETTE_ALL_PATTERNS,
                                         values=PALETTE_VALS, states=ctx.n('palette_states'),
                                         transitions=ctx.n('palette_traces'),
